@@ -6,13 +6,14 @@
 //!   "voucher":{"channel_is_id":bool, "channel_key":id, ["channel_resolves":bool=true],
 //!              "time_lock_min":i64, "time_lock_max":i64, "lane":u64, "nonce":u64, "amount":amount,
 //!              "min_settle_height":i64, "merges":[{"lane":u64,"nonce":u64}],
-//!              "has_extra":bool, "has_secret":bool, ["secret_ok":bool=true], ["has_signature":bool=true]},
+//!              "has_extra":bool, ["extra_actor":id=9999], ["extra_method":u64=77],
+//!              "has_secret":bool, ["secret_ok":bool=true], ["secret_empty":bool], ["has_signature":bool=true]},
 //!   ["entry":"dispatch"|"direct"],  + the runtime keys of runtime.rs (caller, receiver, epoch, balance, sends, ...)}
 //!
 //! Voucher construction: channel_addr = f0<channel_key> when channel_is_id, otherwise an f2 address that
 //! the resolve table maps to channel_key (unless channel_resolves=false); signature = BLS [1,2,3];
 //! secret = b"sec" and secret_pre_image = blake2b(b"sec") when has_secret (the submitted secret is b"bad"
-//! when secret_ok=false), both empty otherwise; extra = ModVerifyParams{f09999, 77, empty} when has_extra.
+//! when secret_ok=false), both empty otherwise; extra = ModVerifyParams{f0<extra_actor>, extra_method, empty} when has_extra.
 //! For UpdateChannelState the first scripted send answers the AuthenticateMessage call to the signer.
 
 use anyhow::{anyhow, bail, Context, Result};
@@ -153,13 +154,24 @@ fn voucher_params(rt: &ReplayRuntime, v: &Value) -> Result<UpdateChannelStatePar
     let (secret, pre_image) = if has_secret {
         let good = b"sec".to_vec();
         let pre = rt.hash_blake2b(&good).to_vec();
-        let submitted = if opt_bool(v, "secret_ok", true)? { good } else { b"bad".to_vec() };
+        let submitted = if opt_bool(v, "secret_empty", false)? {
+            vec![]
+        } else if opt_bool(v, "secret_ok", true)? {
+            good
+        } else {
+            b"bad".to_vec()
+        };
         (submitted, pre)
     } else {
-        (vec![], vec![])
+        // no hash lock on the voucher; the caller may still pass a (meaningless) secret
+        (if opt_bool(v, "secret_empty", true)? { vec![] } else { b"junk".to_vec() }, vec![])
     };
     let extra = if opt_bool(v, "has_extra", false)? {
-        Some(ModVerifyParams { actor: Address::new_id(9999), method: 77, data: RawBytes::default() })
+        Some(ModVerifyParams {
+            actor: Address::new_id(opt_u64(v, "extra_actor", 9999)?),
+            method: opt_u64(v, "extra_method", 77)?,
+            data: RawBytes::default(),
+        })
     } else {
         None
     };
